@@ -134,6 +134,19 @@ func (m *monitor) onEnter(h *harness, e event) {
 		m.firstDraw(h, st, e, cs)
 		return
 	}
+	if st.crashLost {
+		// the crash left nothing of this block in the underlying datastore: the new instance draws
+		// afresh (candidate #9) -- a new lineage whether or not the sets happen to overlap
+		if !subset(cs, st.firstDraw) || !subset(st.firstDraw, cs) {
+			m.violate("C03/redraw/after-crash-unflushed-autobatch",
+				fmt.Sprintf("after a crash (new instance over the underlying datastore, no Close) the sampling result that sat in the autobatch buffer is gone and new coordinates are drawn: height %d (K=%d, area=%d, cascade=%v): first draw %v, delivered so far %v, now requested %v",
+					e.height, h.curK, h.cfg.area(), h.cfg.Cascade, keys(st.firstDraw), keys(st.seen), codes))
+		}
+		st.drawn = false
+		st.seen = map[int]bool{}
+		m.firstDraw(h, st, e, cs)
+		return
+	}
 	m.rep.Count("re_request", 1)
 	if st.allNothing {
 		m.rep.Count("retry_after_only_nothing", 1)
@@ -182,9 +195,9 @@ func (m *monitor) onEnter(h *harness, e event) {
 func (m *monitor) firstDraw(h *harness, st *heightMon, e event, cs map[int]bool) {
 	st.drawn, st.firstDraw, st.allNothing, st.crashLost, st.answered = true, cs, true, false, 0
 	m.rep.Count("first_draws", 1)
-	if len(cs) != h.cfg.need() {
+	if len(cs) != h.need() {
 		m.violate("C03/draw/wrong-sample-count",
-			fmt.Sprintf("first request for height %d has %d coordinates, want min(K=%d, area=%d)", e.height, len(cs), h.cfg.K, h.cfg.area()))
+			fmt.Sprintf("first request for height %d has %d coordinates, want min(K=%d, area=%d)", e.height, len(cs), h.curK, h.cfg.area()))
 	}
 	if h.fix.edsW >= 4 {
 		for _, co := range e.coords {
@@ -266,10 +279,10 @@ func (m *monitor) onReturn(h *harness, e event) {
 	m.rep.Count("available_verdicts", 1)
 	// AvailableSound
 	miss := minus(st.firstDraw, st.served)
-	if !st.drawn || len(st.firstDraw) != h.cfg.need() || len(miss) > 0 {
+	if !st.drawn || len(st.firstDraw) < h.need() || len(miss) > 0 {
 		m.violate("C03/sound/available-without-full-sample-set",
-			fmt.Sprintf("SharesAvailable returned nil for height %d (K=%d, area=%d, cascade=%v) although coordinates %v of the draw %v were never served with a sample (served: %v)",
-				e.height, h.cfg.K, h.cfg.area(), h.cfg.Cascade, keys(miss), keys(st.firstDraw), keys(st.served)))
+			fmt.Sprintf("SharesAvailable returned nil for height %d (sample amount of the running instance %d, area %d, cascade=%v): at least min(amount, area) distinct coordinates must have been served with a sample; coordinates %v of the draw %v were never served (served: %v)",
+				e.height, h.curK, h.cfg.area(), h.cfg.Cascade, keys(miss), keys(st.firstDraw), keys(st.served)))
 	}
 }
 
@@ -339,6 +352,7 @@ type step struct {
 	Served []int  `json:"served,omitempty"`
 	Len0   bool   `json:"len0,omitempty"`
 	Kind   string `json:"kind,omitempty"`
+	K      int    `json:"k,omitempty"` // restart / crash: sample amount of the new instance (0 = unchanged)
 }
 
 type script struct {
@@ -372,9 +386,11 @@ func (h *harness) apply(s step) bool {
 	case "flush":
 		return h.doFlush()
 	case "restart":
-		return h.doRestart()
+		return h.doRestart(s.K)
 	case "crash":
-		return h.doCrash()
+		return h.doCrash(s.K)
+	case "plant":
+		return h.doPlant(s.H, s.Kind)
 	}
 	return false
 }
@@ -439,7 +455,12 @@ func (h *harness) seededStep(r *rand.Rand) step {
 	}
 	cs = append(cs, cand{5, step{A: "flush"}})
 	if h.quiet() {
-		cs = append(cs, cand{12, step{A: "restart"}})
+		cs = append(cs, cand{10, step{A: "restart"}})
+		ks := []int{1, 2, 3, 5}
+		if h.cfg.OdsW == 2 {
+			ks = []int{2, 5, 16}
+		}
+		cs = append(cs, cand{3, step{A: "restart", K: ks[r.Intn(len(ks))]}})
 	}
 	cs = append(cs, cand{5, step{A: "crash"}})
 	tot := 0
@@ -454,6 +475,57 @@ func (h *harness) seededStep(r *rand.Rand) step {
 		x -= c.w
 	}
 	return cs[0].s
+}
+
+// reconfigured: a block is sampled (completely / partly / not at all) by an instance with one
+// sample amount, then the node restarts (or crashes after a Close) with another amount over the
+// same datastore and is asked again; and records without coordinates planted under a block's key.
+func reconfigured() []struct {
+	cfg config
+	sc  script
+} {
+	var out []struct {
+		cfg config
+		sc  script
+	}
+	call := func(c, h int) step { return step{A: "call", C: c, H: h} }
+	all := []int{0, 1, 2, 3, 4, 5, 6, 7, 8, 9, 10, 11, 12, 13, 14, 15}
+	ret := func(c int, served []int) step { return step{A: "ret", C: c, Served: served, Kind: "none"} }
+	type kk struct{ odsW, from, to int }
+	for _, x := range []kk{{1, 2, 3}, {1, 3, 2}, {1, 2, 5}, {1, 5, 2}, {1, 1, 3}, {2, 2, 5}, {2, 5, 2}, {2, 5, 16}, {2, 16, 5}, {2, 2, 16}} {
+		for _, casc := range []bool{false, true} {
+			cfg := config{OdsW: x.odsW, K: x.from, Cascade: casc}
+			add := func(name string, st ...step) {
+				out = append(out, struct {
+					cfg config
+					sc  script
+				}{cfg, script{Name: fmt.Sprintf("reconf-%d-to-%d-%s", x.from, x.to, name), Class: "reconfigured", Steps: st}})
+			}
+			add("complete", call(1, 1), ret(1, all), step{A: "restart", K: x.to}, call(1, 1), call(2, 1), ret(1, all), ret(2, all))
+			add("partial", call(1, 1), ret(1, []int{0}), step{A: "restart", K: x.to}, call(2, 1), ret(2, all), call(1, 1), ret(1, all))
+			add("complete-crash", call(1, 1), ret(1, all), call(2, 2), ret(2, all), step{A: "flush"}, step{A: "crash", K: x.to},
+				call(1, 1), call(2, 2), ret(1, all), ret(2, all))
+			add("back-again", call(1, 2), ret(1, all), step{A: "restart", K: x.to}, call(1, 2), ret(1, all),
+				step{A: "restart", K: x.from}, call(1, 2), ret(1, all))
+		}
+	}
+	kinds := make([]string, 0, len(plantKinds))
+	for k := range plantKinds {
+		kinds = append(kinds, k)
+	}
+	sort.Strings(kinds)
+	for i, kind := range kinds {
+		for _, cfg := range []config{{OdsW: 1, K: 2, Cascade: i%2 == 0}, {OdsW: 2, K: 5, Cascade: i%2 == 1}, {OdsW: 2, K: 16}} {
+			h := 1 + i%2
+			out = append(out, struct {
+				cfg config
+				sc  script
+			}{cfg, script{Name: "planted-" + kind, Class: "planted", Steps: []step{
+				{A: "plant", H: h, Kind: kind}, call(1, h), ret(1, all), call(2, 3-h), ret(2, all), call(1, h), ret(1, all),
+				{A: "restart"}, call(2, h), ret(2, all)}}})
+		}
+	}
+	return out
 }
 
 // directed: three calls for one block with the middle one cancelled while it waits.
@@ -766,6 +838,10 @@ func TestDriver(t *testing.T) {
 			{OdsW: 2, K: 2, Cascade: true}, {OdsW: 1, K: 5}} {
 			r.run(c, sc, 0)
 		}
+	}
+	// (1c) another sample amount after a restart; records without coordinates under a block's key
+	for _, x := range reconfigured() {
+		r.run(x.cfg, x.sc, 0)
 	}
 	// (2) seeded random schedules on the real state
 	nSeeded := vh.EnvInt("VERIF_SEEDED", 300)
